@@ -43,6 +43,23 @@ def c19_generator_leg(pid, tier, seed, i, leg):
         raw1 = gen("into-empty-dir", lambda: os.remove(os.path.join(dst, "trees.go")))
         # the generator opens trees.go without truncation: regenerate over the existing file as `go generate` would
         gen("over-existing-file", lambda: shutil.copy(os.path.join(REPO, "trees.go"), os.path.join(dst, "trees.go")))
+        # regenerating must put the generated text back whatever state the file is in and whatever its age: a hand
+        # edit (the file is then the newest in the tree), a stale longer file, a file older than everything else
+        def edited():
+            with open(os.path.join(dst, "trees.go"), "ab") as f:
+                f.write(b"\n// hand edit\nfunc handEdit() {}\n")
+            now = time.time()
+            os.utime(os.path.join(dst, "trees.go"), (now + 5, now + 5))
+        gen("over-a-hand-edited-newer-file", lambda: (shutil.copy(os.path.join(REPO, "trees.go"), os.path.join(dst, "trees.go")), edited()))
+
+        def aged():
+            shutil.copy(os.path.join(REPO, "trees.go"), os.path.join(dst, "trees.go"))
+            with open(os.path.join(dst, "trees.go"), "r+b") as f:
+                b = f.read().replace(b"'\\x00'", b"'\\x01'", 1)
+                f.seek(0)
+                f.write(b)
+            os.utime(os.path.join(dst, "trees.go"), (1, 1))
+        gen("over-an-altered-old-file", aged)
         # tie the Lean template model to text/template on this template
         rc, out = sh(["lake", "build", "tmplrender"], cwd=LEAN)
         if rc == 0 and raw1 is not None:
@@ -58,8 +75,8 @@ def c19_generator_leg(pid, tier, seed, i, leg):
         shutil.rmtree(scratch, ignore_errors=True)
     with open(transcript, "w") as f:
         f.write("\n".join(lines) + "\n")
-    return dict(leg=leg, transcript=transcript, diffs=diffs, summary={"ops": len(lines)}, stats={"generator-runs": 2},
-                cmd="scratch copy: go run cmd/go-art/main.go && gofmt -w trees.go && cmp", nontrivial=2, evaluations=0)
+    return dict(leg=leg, transcript=transcript, diffs=diffs, summary={"ops": len(lines)}, stats={"generator-runs": 4},
+                cmd="scratch copy: go run cmd/go-art/main.go && gofmt -w trees.go && cmp", nontrivial=4, evaluations=0)
 
 
 def c19():
